@@ -999,7 +999,7 @@ def ng_queries(rng):
 
 def check_C05(ck, res, replay):
     run_adf_check(ck, res, replay, "C05", ng_queries, 1500, 30000, nmax_q=7, nmax_t=9, tt3_q=500, tt3_t=20000,
-                  ties=("TieLeaf", "TieMoreModels", "TieFlagRand", "TieFlagExhaust"), seeds=True, case_timeout=8000)
+                  ties=("TieLeaf", "TieMoreModels", "TieFlagRand", "TieFlagExhaust", "TieDispatch"), seeds=True, case_timeout=8000)
     return ck.finish(res, level_of(res.pid), ASSUME_COMMON + ["rand::StdRng is an abstract stream of u64 draws, reproduced by an identically seeded generator in the harness"])
 
 
@@ -1577,7 +1577,7 @@ def run_cli_cases(ck, binary, cases):
 
 
 def check_C15(ck, res, replay):
-    common_front(ck, res, "C15", ties=["TieLeaf"])
+    common_front(ck, res, "C15", ties=["TieLeaf", "TieCli"])
     binary = build_cli(ck, res)
     rng = gen.Rng(res.seed ^ 0xC15)
     quick = res.tier == "quick"
@@ -1968,7 +1968,7 @@ def well_declared(text):
 
 
 def server_common(ck, res, pid):
-    common_front(ck, res, pid, ties=["TieFilters"])
+    common_front(ck, res, pid, ties=["TieFilters", "TieDispatch"])
     import server_harness as sh
     binary, err = sh.build_server()
     if binary is None:
